@@ -226,6 +226,8 @@ func simple(s *Stmt) string {
 			t += " " + s.T
 		}
 		return t + " = " + expr(s.E)
+	case "typedecl":
+		return "type " + s.Name + " int"
 	case "define":
 		return strings.Join(s.Names, ", ") + " := " + exprs(s.Es)
 	case "assign":
